@@ -2,6 +2,10 @@
 import re
 import vlib
 
+# contract of SlotMapData::get proved here; unit c09_table imports this very text
+GET_HEADER = ("pub fn get(&self, slot: usize) -> (r: Option<&str>)\n        requires self.wf()\n"
+              "        ensures match r { Some(a) => slot < self.slot_arr@.len() && (self.slot_arr@[slot as int] matches Some(k) && a@ == self.addrs@[k as int]@), None => slot >= self.slot_arr@.len() || self.slot_arr@[slot as int] is None }")
+
 def build(U):
     S = U.src('src/common/utils.rs')
     L = U.src('src/proxy/slot.rs')
@@ -45,8 +49,7 @@ def build(U):
     if not re.search(r'struct SlotMapData \{\s*slot_arr: Vec<Option<usize>>,\s*addrs: Vec<String>,\s*\}', L.text):
         raise __import__('vlib').Undecided('SlotMapData layout changed')
     get = L.fn('get', within=r'impl SlotMapData\b')
-    get.header("pub fn get(&self, slot: usize) -> (r: Option<&str>)\n        requires self.wf()\n"
-               "        ensures match r { Some(a) => slot < self.slot_arr@.len() && (self.slot_arr@[slot as int] matches Some(k) && a@ == self.addrs@[k as int]@), None => slot >= self.slot_arr@.len() || self.slot_arr@[slot as int] is None }")
+    get.header(GET_HEADER)
     get.replace('closure-spec', '.and_then(|opt| *opt)', '.and_then(|opt: &Option<usize>| -> (o: Option<usize>) ensures o == *opt { *opt })', count=1)
     get.replace('closure-spec', '.map(|s| s.as_str())', '.map(|s: &String| -> (o: &str) ensures o@ == s@ { s.as_str() })', count=1)
     U.add_fn(get)
